@@ -141,7 +141,11 @@ VALUE_KINDS = ["null", "true", "zero", "neg1", "big", "real", "name", "string", 
                # reference graph (closes a cycle through existing objects: form -> outer form, Kids -> ancestor, First ->
                # outline root ...) and a type-diverse selection of existing streams / dictionaries
                "ref_anc0", "ref_anc1", "ref_anc2", "ref_anc3", "ref_anc4", "ref_anc5",
-               "ref_stm0", "ref_stm1", "ref_stm2", "ref_dic0", "ref_dic1", "ref_dic2"]
+               "ref_stm0", "ref_stm1", "ref_stm2", "ref_dic0", "ref_dic1", "ref_dic2",
+               # EXTREME values (tagged family, keys "extreme:<kind>:..."): an array nested deeper than the interpreter's
+               # recursion limit, an integer and a real of 400 digits, 2**63
+               "x_deep", "x_hugeint", "x_hugereal", "x_two63"]
+EXTREME_KINDS = ("x_deep", "x_hugeint", "x_hugereal", "x_two63")
 STRUCT_KINDS = ["remove", "duplicate"]
 STREAM_KINDS = ["s_empty", "s_cut14", "s_cut12", "s_cut34", "s_cut1", "s_flip0", "s_flip1", "s_flip2", "s_flip3", "s_flip4", "s_flip5",
                 "s_flip6", "s_flip7", "s_garbage", "s_len0", "s_lenshort", "s_lenlong",
@@ -316,6 +320,18 @@ def _mutate(d2: Doc, parent: Any, key: Any, kind: str, objid: Optional[int]) -> 
         v = 0
     elif kind == "neg1":
         v = -1
+    elif kind == "x_deep":
+        from vf.gen.pdfw import Raw
+
+        v = Raw(b"[" * 1500 + b"7" + b"]" * 1500)
+    elif kind == "x_hugeint":
+        v = 10 ** 400 + 7
+    elif kind == "x_hugereal":
+        from vf.gen.pdfw import Real
+
+        v = Real("9" * 400 + ".5")
+    elif kind == "x_two63":
+        v = 2 ** 63
     elif kind == "big":
         v = 2 ** 31
     elif kind == "real":
@@ -612,6 +628,15 @@ def classify(entry: str, data: bytes, opts: Dict[str, Any], budget: int) -> Tupl
         return "leak", "leak:%s:%s" % (type(e).__name__, _where(e))
     except Exception as e:  # noqa: BLE001
         return "leak", "leak:%s:%s" % (type(e).__name__, _where(e))
+
+
+def family_key(kind: str, outcome: str, key: str) -> str:
+    """Failures of the extreme-value kinds are keyed by mechanism (kind, outcome class, exception type), not by the
+    function that happened to trip: one defect class, many sites."""
+    if not key or kind not in EXTREME_KINDS:
+        return key
+    parts = key.split(":")
+    return "extreme:%s:%s" % (kind, ":".join(parts[:2]) if outcome == "leak" else parts[0])
 
 
 def _where(e: BaseException, recursion: bool = False) -> str:
@@ -926,7 +951,10 @@ def run_shard(spec: Dict[str, Any], rec) -> None:
             rec.case(chash(data), True, n=0)
             for entry in entries_for(opts):
                 budget = budget_for(name, entry, base, opts)
+                if kind == "x_deep":
+                    budget += 5000000     # the fault adds 3 KB of brackets, re-read with every uncached object fetch
                 outcome, key = classify(entry, data, opts, budget)
+                key = family_key(kind, outcome, key)
                 rec.case(None, False)
                 rec.count("outcome:" + outcome)
                 if key:
@@ -955,7 +983,8 @@ def replay(case: Dict[str, Any]) -> List[Tuple[str, str]]:
     out = []
     entries = [case["entry"]] if case.get("entry") else entries_for(opts)
     for entry in entries:
-        outcome, key = classify(entry, data, opts, budget_for(case["seed"], entry, base, opts))
+        outcome, key = classify(entry, data, opts, budget_for(case["seed"], entry, base, opts) + (5000000 if case["kind"] == "x_deep" else 0))
+        key = family_key(case["kind"], outcome, key)
         if key:
             out.append((key, "seed=%s site=%r kind=%s entry=%s -> %s" % (case["seed"], site, case["kind"], entry, key)))
     return out
